@@ -98,6 +98,42 @@ Dup == \E k \in 1..4 : Step("dup", <<k>>, "pos", cols, rows, "ok")   \* copy, de
 Next == PickCols \/ SliceCols \/ RowsOp \/ ToRfi \/ ToRfiAll \/ ToMef \/ GateHL \/ GateHLAll \/ GateSE \/ Dup
 Spec == Init /\ [][Next]_vars
 
+(* ---- the same steps as ONE function of (step name, argument), for arbitrary arguments ----------------- *)
+(* Trace_Session judges recorded sessions of the real library with it (arguments there are wider than      *)
+(* ChanArgs: any ordered list of distinct positions); ApplyAgrees ties it to the actions above.             *)
+AllPos(c) == [i \in DOMAIN c |-> i]
+PosList(A, n) == /\ Len(A) >= 1 /\ Distinct(A) /\ \A i \in DOMAIN A : A[i] \in 1..n
+MefOK(c, L) == /\ \A i \in Range(L) : c[i][1] \in MefChans
+               /\ \A m \in MefChans : \E i \in DOMAIN c : c[i][1] = m
+St(c, r, o) == [cols |-> c, rows |-> r, res |-> o]
+Apply(op, A, c, r) ==
+  CASE op = "pick"    -> St(PickF(c, A), r, "ok")
+    [] op = "slicec"  -> St(SliceF(c, A[1], A[2]), r, "ok")
+    [] op = "rows"    -> St(c, RowsF(r, A[1]), "ok")
+    [] op = "rfi"     -> St(ConvF(c, A, 1), r, "ok")
+    [] op = "rfi_all" -> St(ConvF(c, AllPos(c), 1), r, "ok")
+    [] op = "mef"     -> IF MefOK(c, A) THEN St(ConvF(c, A, 2), r, "ok") ELSE St(c, r, "err")
+    [] op = "hl"      -> St(c, GateF(c, r, A), "ok")
+    [] op = "hl_all"  -> St(c, GateF(c, r, AllPos(c)), "ok")
+    [] op = "se"      -> IF A[1] + A[2] > Len(r) THEN St(c, r, "err") ELSE St(c, SubSeq(r, A[1] + 1, Len(r) - A[2]), "ok")
+    [] op = "dup"     -> St(c, r, "ok")
+(* what the user is assumed to respect (the documentation's order of work): *)
+Pre(op, A, c, r) ==
+  CASE op = "pick"    -> PosList(A, Len(c))
+    [] op = "slicec"  -> Len(A) = 2 /\ 0 <= A[1] /\ A[1] < A[2] /\ A[2] <= Len(c)
+    [] op = "rows"    -> Len(A) = 1 /\ A[1] \in 1..6 /\ Len(r) >= 2 /\ Len(RowsF(r, A[1])) >= 1
+    [] op = "rfi"     -> PosList(A, Len(c)) /\ \A i \in Range(A) : c[i][2] = 0
+    [] op = "rfi_all" -> \A i \in DOMAIN c : c[i][2] = 0
+    [] op = "mef"     -> PosList(A, Len(c)) /\ \A i \in Range(A) : c[i][2] = 1
+    [] op = "hl"      -> PosList(A, Len(c))
+    [] op = "hl_all"  -> TRUE
+    [] op = "se"      -> Len(A) = 2 /\ A[1] >= 0 /\ A[2] >= 0
+    [] op = "dup"     -> Len(A) = 1 /\ A[1] \in 1..4
+    [] OTHER          -> FALSE
+ApplyAgrees == [][hist' # hist => LET h == hist'[Len(hist')] IN
+                     /\ Pre(h[1], h[2], cols, rows)
+                     /\ St(cols', rows', res') = Apply(h[1], h[2], cols, rows)]_vars
+
 (* ---- what TLC checks about the composition ------------------------------------ *)
 TypeOK == /\ cols \in Seq((1..NCh) \X (0..2)) /\ rows \in Seq(1..NEv) /\ res \in {"ok", "err"}
 ColsDistinct == Distinct([i \in DOMAIN cols |-> cols[i][1]])
